@@ -733,3 +733,25 @@ Proof.
   - intros f H. apply repeat_spec in H. exact H.
   - intros t ->. reflexivity.
 Qed.
+
+(* ---------------- the warning branch ---------------- *)
+(* no overflow as long as the reading, as an i64, is not below last - i64::MAX; in particular for
+   every reading below 2^63 microseconds when last >= 0 ... *)
+Lemma warn_sub_safe last m : 0 <= last <= i64_max -> 0 <= m < 2 ^ 63 ->
+  warn_sub_overflows last (Some m) = false /\
+  forall w, compute_next_checked w last (Some m) = Some (compute_next last (Some m)).
+Proof.
+  intros Hl Hm. assert (E : warn_sub_overflows last (Some m) = false).
+  { unfold warn_sub_overflows. rewrite (wrap64_id m) by (unfold i64_min, i64_max; lia). cbv zeta.
+    apply andb_false_iff. right. apply Z.ltb_ge. unfold i64_max in *. lia. }
+  split; [exact E|]. intros w. unfold compute_next_checked. rewrite E, andb_false_r. reflexivity.
+Qed.
+Lemma warn_sub_safe_preepoch w last : compute_next_checked w last None = Some (compute_next last None).
+Proof. unfold compute_next_checked. cbn [warn_sub_overflows]. rewrite andb_false_r. reflexivity. Qed.
+
+(* ... and it does overflow for a reading of exactly 2^63 microseconds after any positive value *)
+Lemma warn_sub_overflow_witness :
+  warn_sub_overflows 1700000000000000 (Some (2 ^ 63)) = true /\
+  compute_next_checked true 1700000000000000 (Some (2 ^ 63)) = None /\
+  compute_next_checked false 1700000000000000 (Some (2 ^ 63)) = Some 1700000000000001.
+Proof. repeat split; vm_compute; reflexivity. Qed.
